@@ -3,6 +3,7 @@ package scen
 import (
 	"fmt"
 	"os"
+	"path/filepath"
 	"runtime"
 	"strconv"
 	"strings"
@@ -95,6 +96,7 @@ type c30Scenario struct {
 	name    string
 	initial []fixture.Block
 	writes  []fixture.Block
+	foreign bool // a plain file "README" lies in the month directories of the initial days
 }
 
 func c30Scenarios() []c30Scenario {
@@ -106,13 +108,13 @@ func c30Scenarios() []c30Scenario {
 		return fixture.Block{Iface: "eth0", TS: ts, Recs: out, Drops: k}
 	}
 	return []c30Scenario{
-		{"append-to-day+first-block-of-next-day", []fixture.Block{b(tA1, 1, r4a, r6a)}, []fixture.Block{b(tA2, 2, r4b, r6b, r4a), b(tB1, 3, r4c, r6c)}},
-		{"first-block-ever+append", nil, []fixture.Block{b(tA1, 1, r4a, r6a), b(tA2, 2, r4b)}},
-		{"two-appends", []fixture.Block{b(tA1, 1, r4a, r6a), b(tA2, 2, r4d, r6d)}, []fixture.Block{b(dayA+900, 3, r4b, r6b), b(dayA+1200, 4, r4c)}},
-		{"new-day-in-new-month", []fixture.Block{b(tA1, 1, r4a, r6a), b(tB1, 2, r6b)}, []fixture.Block{b(tD1, 3, r4b, r6c)}},
+		{"append-to-day+first-block-of-next-day", []fixture.Block{b(tA1, 1, r4a, r6a)}, []fixture.Block{b(tA2, 2, r4b, r6b, r4a), b(tB1, 3, r4c, r6c)}, true},
+		{"first-block-ever+append", nil, []fixture.Block{b(tA1, 1, r4a, r6a), b(tA2, 2, r4b)}, false},
+		{"two-appends", []fixture.Block{b(tA1, 1, r4a, r6a), b(tA2, 2, r4d, r6d)}, []fixture.Block{b(dayA+900, 3, r4b, r6b), b(dayA+1200, 4, r4c)}, false},
+		{"new-day-in-new-month", []fixture.Block{b(tA1, 1, r4a, r6a), b(tB1, 2, r6b)}, []fixture.Block{b(tD1, 3, r4b, r6c)}, false},
 		// the day starts with an idle interval (a block without flows: its attribute columns are never opened
 		// by a reader), so a reader meets the renamed directory with columns in different states
-		{"idle-block-first+append", []fixture.Block{b(tA1, 1), b(tA2, 2, r4d, r6d)}, []fixture.Block{b(dayA+900, 3, r4b)}},
+		{"idle-block-first+append", []fixture.Block{b(tA1, 1), b(tA2, 2, r4d, r6d)}, []fixture.Block{b(dayA+900, 3, r4b)}, true},
 	}
 }
 
@@ -145,6 +147,16 @@ func c30Run(x *explore.Ctx) {
 	}
 	// interface directory exists in every scenario (an interface that was never written is C16's subject)
 	os.MkdirAll(dbPath+"/eth0", 0o755)
+	// two scenarios carry a foreign plain file next to the day directories (it sorts after them): the
+	// reader's and the writer's searches for a (renamed) day directory run over a listing that holds it
+	if sc.foreign {
+		for _, bl := range sc.initial {
+			month := filepath.Dir(gpfile.NewDirReader(dbPath+"/eth0", bl.TS, "").Path())
+			if err := os.WriteFile(month+"/README", []byte("not a day directory\n"), 0o644); err != nil {
+				explore.HarnessErrorf("foreign file: %v", err)
+			}
+		}
+	}
 
 	c := &schedCtl{ann: make(chan schedAnn), root: dbPath}
 	c.resume[0], c.resume[1] = make(chan struct{}), make(chan struct{})
@@ -393,7 +405,7 @@ func c30ErrClass(err error) string {
 func init() {
 	register("C30", &explore.Scenario{
 		ID: "C30", Name: "all interleavings of reader and writer file-system steps", Level: "model_checking",
-		Rule:  "cases = 5 writer scenarios (append with suffix rename + first block of a new day; first block ever; two appends; new day in a new month; append to a day whose first block has no flows) x 3 readers (raw+time query, same in low-memory mode, interface listing); the real writer (1-2 write-outs through DBWriter.Write) and the real reader run as goroutines that block in the vos controller before every file-system step; wherever both have a step pending the explorer branches on who goes first; all interleavings with at most 2 (thorough 3) preemptions (a switch away from a thread that could continue), either thread first, memoised on (writer pc, reader pc, hash of all results the reader has observed, writer progress at reader start). state = that key; non-trivial = interleavings where the reader overlaps at least one write-out, distinct by (reader observation history, overlap window)",
+		Rule:  "cases = 5 writer scenarios (append with suffix rename + first block of a new day; first block ever; two appends; new day in a new month; append to a day whose first block has no flows; the first and the last scenario with a foreign plain file next to the day directories) x 3 readers (raw+time query, same in low-memory mode, interface listing); the real writer (1-2 write-outs through DBWriter.Write) and the real reader run as goroutines that block in the vos controller before every file-system step; wherever both have a step pending the explorer branches on who goes first; all interleavings with at most 2 (thorough 3) preemptions (a switch away from a thread that could continue), either thread first, memoised on (writer pc, reader pc, hash of all results the reader has observed, writer progress at reader start). state = that key; non-trivial = interleavings where the reader overlaps at least one write-out, distinct by (reader observation history, overlap window)",
 		Cases: func(t string) int { return 3 * len(c30Scenarios()) },
 		Bound: func(t string) int {
 			if t == "thorough" {
